@@ -67,7 +67,17 @@ static void rbh_putcps(const unsigned char *s, size_t n)
   }
 }
 
-/* ---- pens ---- */
+/* ---- pens ----
+ * spec / print syntax: a sequence of  <letter><decimal>  in the fixed order
+ *   f b (colours, optionally followed by #rrggbb = the RGB8 secondary) B(old) u(nder) i(talic)
+ *   r(everse) s(trike) a(ltfont) k(blink) z(sizepos);   "-" = empty pen, "null" = NULL, "~" printed for NULL */
+static const struct { char c; TickitPenAttr a; } rbh_pattr[] = {
+  { 'f', TICKIT_PEN_FG }, { 'b', TICKIT_PEN_BG }, { 'B', TICKIT_PEN_BOLD }, { 'u', TICKIT_PEN_UNDER },
+  { 'i', TICKIT_PEN_ITALIC }, { 'r', TICKIT_PEN_REVERSE }, { 's', TICKIT_PEN_STRIKE }, { 'a', TICKIT_PEN_ALTFONT },
+  { 'k', TICKIT_PEN_BLINK }, { 'z', TICKIT_PEN_SIZEPOS },
+};
+#define RBH_NPATTR ((int)(sizeof rbh_pattr / sizeof rbh_pattr[0]))
+
 static TickitPen *rbh_pen(const char *spec)
 {
   if(strcmp(spec, "null") == 0) return NULL;
@@ -75,15 +85,41 @@ static TickitPen *rbh_pen(const char *spec)
   if(strcmp(spec, "-") == 0) return pen;
   const char *p = spec;
   while(*p) {
-    char a = *p++; char *e; long v = strtol(p, &e, 10); p = e;
-    switch(a) {
-      case 'f': tickit_pen_set_colour_attr(pen, TICKIT_PEN_FG, v); break;
-      case 'b': tickit_pen_set_colour_attr(pen, TICKIT_PEN_BG, v); break;
-      case 'B': tickit_pen_set_bool_attr(pen, TICKIT_PEN_BOLD, v); break;
-      case 'u': tickit_pen_set_int_attr(pen, TICKIT_PEN_UNDER, v); break;
+    char c = *p++; char *e; long v = strtol(p, &e, 10); p = e;
+    TickitPenAttr a = 0;
+    for(int i = 0; i < RBH_NPATTR; i++) if(rbh_pattr[i].c == c) a = rbh_pattr[i].a;
+    if(!a) break;
+    switch(tickit_penattr_type(a)) {
+      case TICKIT_PENTYPE_BOOL:   tickit_pen_set_bool_attr(pen, a, v != 0); break;
+      case TICKIT_PENTYPE_INT:    tickit_pen_set_int_attr(pen, a, v); break;
+      case TICKIT_PENTYPE_COLOUR:
+        tickit_pen_set_colour_attr(pen, a, v);
+        if(*p == '#') {
+          unsigned r, g, bl;
+          if(sscanf(p + 1, "%2x%2x%2x", &r, &g, &bl) == 3)
+            tickit_pen_set_colour_attr_rgb8(pen, a, (TickitPenRGB8){ .r = r, .g = g, .b = bl });
+          p += 7;
+        }
+        break;
     }
   }
   return pen;
+}
+
+static void rbh_putattr(const TickitPen *pen, int i)
+{
+  TickitPenAttr a = rbh_pattr[i].a;
+  switch(tickit_penattr_type(a)) {
+    case TICKIT_PENTYPE_BOOL:   printf("%c%d", rbh_pattr[i].c, tickit_pen_get_bool_attr(pen, a) ? 1 : 0); break;
+    case TICKIT_PENTYPE_INT:    printf("%c%d", rbh_pattr[i].c, tickit_pen_get_int_attr(pen, a)); break;
+    case TICKIT_PENTYPE_COLOUR:
+      printf("%c%d", rbh_pattr[i].c, tickit_pen_get_colour_attr(pen, a));
+      if(tickit_pen_has_colour_attr_rgb8(pen, a)) {
+        TickitPenRGB8 c = tickit_pen_get_colour_attr_rgb8(pen, a);
+        printf("#%02x%02x%02x", c.r, c.g, c.b);
+      }
+      break;
+  }
 }
 
 /* exact has/value form */
@@ -91,15 +127,8 @@ static void rbh_putpen(const TickitPen *pen)
 {
   if(!pen) { putchar('~'); return; }
   int any = 0;
-  if(tickit_pen_has_attr(pen, TICKIT_PEN_FG)) { printf("f%d", tickit_pen_get_colour_attr(pen, TICKIT_PEN_FG)); any = 1; }
-  if(tickit_pen_has_attr(pen, TICKIT_PEN_BG)) { printf("b%d", tickit_pen_get_colour_attr(pen, TICKIT_PEN_BG)); any = 1; }
-  if(tickit_pen_has_attr(pen, TICKIT_PEN_BOLD)) { printf("B%d", tickit_pen_get_bool_attr(pen, TICKIT_PEN_BOLD) ? 1 : 0); any = 1; }
-  if(tickit_pen_has_attr(pen, TICKIT_PEN_UNDER)) { printf("u%d", tickit_pen_get_int_attr(pen, TICKIT_PEN_UNDER)); any = 1; }
-  /* an attribute outside the modelled four would be a harness error: make it visible */
-  for(TickitPenAttr a = 1; a < TICKIT_N_PEN_ATTRS; a++)
-    if(a != TICKIT_PEN_FG && a != TICKIT_PEN_BG && a != TICKIT_PEN_BOLD && a != TICKIT_PEN_UNDER && tickit_pen_has_attr(pen, a)) {
-      printf("?%d", (int)a); any = 1;
-    }
+  for(int i = 0; i < RBH_NPATTR; i++)
+    if(tickit_pen_has_attr(pen, rbh_pattr[i].a)) { rbh_putattr(pen, i); any = 1; }
   if(!any) putchar('-');
 }
 
@@ -202,8 +231,8 @@ static void rbh_dump(RbhBuf *b)
 /* ---- flushing (C04) ---- */
 static void rbh_putpen_canon(const TickitPen *pen)
 {
-  printf("f%db%dB%du%d", tickit_pen_get_colour_attr(pen, TICKIT_PEN_FG), tickit_pen_get_colour_attr(pen, TICKIT_PEN_BG),
-         tickit_pen_get_bool_attr(pen, TICKIT_PEN_BOLD) ? 1 : 0, tickit_pen_get_int_attr(pen, TICKIT_PEN_UNDER));
+  /* every attribute as the getters report it (defaults for absent ones) */
+  for(int i = 0; i < RBH_NPATTR; i++) rbh_putattr(pen, i);
 }
 
 /* the mock driver with an erasech whose MAYBE leaves the cursor in place (as xterm's ECH does) */
